@@ -29,3 +29,7 @@ pub(crate) fn interest_code(i: &Interest) -> u8 {
 pub(crate) fn any_interest() -> (Interest, u8) {
     let k: u8 = nd(); kani::assume(k <= 2); (interest_of(k), k)
 }
+/// Stub for `core::fmt::Formatter::pad` (used with `-Z stubbing`): panic-message formatting on
+/// infeasible error branches (refcount overflow, poisoned lock, bounds) otherwise sends CBMC into
+/// core::fmt's char-counting loops. No harness that uses this stub inspects formatted text.
+pub(crate) fn pad_stub<'a>(_f: &mut core::fmt::Formatter<'a>, _s: &str) -> core::fmt::Result where 'a: 'a { Ok(()) }
